@@ -413,7 +413,11 @@ func ruleDecodersReadAll(c *Ctx) {
 				if !ok || call.Args[0].strip().Key() != R.Key() {
 					bad = append(bad, "the decoded bytes are "+prettyTerm(res)+", not ReadAll of the codec reader (a fixed-size read truncates multi-member or longer streams)")
 				} else if pr.Results[1].Key() != ext(call, 1).Key() {
-					bad = append(bad, "ReadAll's error is not returned")
+					// `return data, nil` after `if err != nil { return data, err }` is the same thing
+					k, isNil := pr.Facts.Decide(eqTerm(ext(call, 1), nilTerm(nil)))
+					if !(pr.Results[1].IsNil() && k && isNil) {
+						bad = append(bad, "ReadAll's error is not returned")
+					}
 				}
 			})
 			if succ == 0 {
